@@ -231,6 +231,7 @@ func (g *Gen) HistoryBulk(size int) []E {
 	byId := false
 	switch g.r.Intn(8) {
 	case 7: // one document, named by its _id - and a window that may leave it out
+		q = []interface{}{}
 		if size > 0 {
 			byId = true
 			q = []interface{}{[]interface{}{"where", []interface{}{"un", "eq", B("_id"), []interface{}{"lit", AStr(bulkId(g.r.Intn(size)))}}}}
